@@ -2,7 +2,7 @@
 // line tool (property C03: parsing is total, error positions exist in the
 // source, token positions are the true line/column of the first byte).
 //
-// Spec -> code: every case exported by Gen_Lexer / Gen_LexerFile carries a
+// Spec -> code: every case exported by Gen_Lexer carries a
 // source, the token stream the specification predicts (kind class, start
 // offset, true line and column) and the line table that decides which
 // positions exist.  Replay lexes the source with lexer.Scan (and ScanRegex
